@@ -28,6 +28,9 @@ class StdVector(Plugin):
         return m.group(1).strip() if m else None
 
     def type_for(self, name, unit):
+        if name.endswith('::value_type') or name.endswith('::reference') or name.endswith('::const_reference'):
+            el = self.elem_of(name.rsplit('::', 1)[0])
+            if el is not None: return unit.ctype(el)
         ie = self.iter_elem(name)
         if ie is not None and not canon_type(name).startswith('std::vector<'):
             return unit.ctype(ie) + ' *'
@@ -92,6 +95,8 @@ class StdVector(Plugin):
             a0 = a[0]
             if a0.startswith('(*') and a0.endswith(')') and self.decls.get(cn, '').startswith('struct '): pass
             return '%s_push_back(%s, %s)' % (cn, recv, a0)
+        if name == 'erase' and len(a) == 1:
+            return '%s_erase_one(%s, %s)' % (cn, recv, a[0])
         if name == 'erase' and len(a) == 2:
             return '%s_erase_to_end(%s, %s, %s)' % (cn, recv, a[0], a[1])
         if name == 'swap' and len(a) == 1:
@@ -130,6 +135,28 @@ class StdVector(Plugin):
         return None
 
     def free_call(self, unit, name, rd, args, n):
+        if name in ('find', 'find_if') and len(args) == 3 and self.node_iter(args[0]):
+            # std::find / std::find_if over vector/deque iterators: first position that matches, else last (model of the library algorithm)
+            elem = unit.ctype(self.node_iter(args[0])[1])
+            if name == 'find_if':
+                lam, largs, rt = unit.lift_lambda(args[2])
+                proto_l = unit.emitted_protos[lam]; ps = proto_l[proto_l.index('(') + 1:proto_l.rindex(')')]
+                plist = [x.strip() for x in ps.split(',')][:-1]; an = [x.rsplit(' ', 1)[-1].lstrip('*') for x in plist]
+                h = lam.replace('__lambda', '__find_if'); test = '%s(%s)' % (lam, ', '.join(an + ['&first[i]']))
+            else:
+                self.find_no = getattr(self, 'find_no', 0); h = '%s__find%d' % (unit.cur, self.find_no); self.find_no += 1
+                is_rec = elem.startswith('struct ')
+                plist = ['%s %sval' % (elem, '*' if is_rec else '')]; largs = [unit.addr_of(args[2]) if is_rec else unit.expr(args[2])]
+                # element equality: operator== of the element type, restated by the spec as V_EQ_<elem>(a, b) for records
+                test = ('V_EQ_%s(&first[i], val)' % elem[len('struct '):]) if is_rec else '(first[i] == val)'
+            proto = 'static %s *%s(%s)' % (elem, h, ', '.join(['%s *first' % elem, '%s *last' % elem] + plist))
+            lc = unit.spec.get(('loop', h, 1)); ent = unit.spec.get(('ghost', h, 'entry')) or ''
+            for k in (('loop', h, 1), ('ghost', h, 'entry')):
+                if k in unit.spec: unit.used_keys.add(k)
+            body = '  size_t n = (size_t)(last - first), i = 0;\n  %s\n  for (; i < n; ++i)\n%s  {\n    if (%s) return first + i;\n  }\n  return last;\n' % (
+                ent, ''.join('  ' + l + '\n' for l in lc.strip('\n').split('\n')) if lc else '', test)
+            unit.add_helper(h, proto, proto + '\n{\n' + body + '}\n')
+            return '%s(%s)' % (h, ', '.join([unit.expr(args[0]), unit.expr(args[1])] + largs))
         if name == 'remove_if' and len(args) == 3 and self.node_iter(args[0]):
             # std::remove_if over vector/deque iterators with a lambda: stable compaction (model of the library algorithm)
             elem = unit.ctype(self.node_iter(args[0])[1])
@@ -259,6 +286,13 @@ class StdFunction(Plugin):
     def assign_other(self, unit, f, rhs):
         return None
 
+    def free_call(self, unit, name, rd, args, n):
+        if name == 'CatchThrow' and args and self.node_sig(args[0]):
+            # tbox::CatchThrow(func, ...): invokes func and swallows whatever it throws
+            sig = self.node_sig(args[0]); unit.count_call(self.stub_name(sig))
+            return '(%s(%s), (_Bool)0)' % (self.stub_name(sig), unit.addr_of(args[0]))
+        return None
+
     def member_call(self, unit, n, me, base, args):
         sig = self.node_sig(base)
         if sig is None: return None
@@ -277,6 +311,10 @@ class StdFunction(Plugin):
         inner = unit.strip_tmp(ks[0])
         if self.node_sig(inner): return '(*%s)' % unit.addr_of(inner)      # copy
         if inner['kind'] in ('CXXNullPtrLiteralExpr', 'GNUNullExpr'): return '((struct v_function){0, 0})'
+        if inner['kind'] == 'LambdaExpr':
+            # a closure stored into a std::function: engaged, identity abstract; its body is not part of the unit unless listed separately
+            unit.dropped.append('body of a lambda stored into std::function (in %s)' % unit.cur)
+            return '((struct v_function){1, (int)v_nondet_i64()})'
         raise Unsupported('std::function constructed from %s (in %s)' % (inner['kind'], unit.cur))
 
     def field_init(self, unit, f, ct, target, e):
@@ -478,6 +516,94 @@ class OpaqueTypes(Plugin):
     def field_init(self, unit, f, ct, target, e): return []
     def field_dtor(self, unit, f, ct, target): return []
     def local_object(self, unit, v, ct, name, ks, p): unit.w(p + '%s %s;' % (ct.replace('const ', ''), name))
+    def _ct(self, unit, node):
+        t = node.get('type', {})
+        for qt in (t.get('desugaredQualType'), t.get('qualType')):
+            if qt:
+                r = self.type_for(re.sub(r'\s*[\*&]$', '', qt.replace('const ', '').strip()), unit)
+                if r: return r
+        return None
+    def member_call(self, unit, n, me, base, args):
+        # a method of an opaque library object: stub `<struct>__<method>(obj, args...)` (records by address) whose contract the spec supplies
+        ct = self._ct(unit, base)
+        if ct is None: return None
+        b = unit.expr(base); recv = b if me.get('isArrow') else unit.addr_text(b)
+        fn = '%s__%s' % (ct[len('struct '):], re.sub(r'\W', '_', me['name']))
+        unit.count_call(fn)
+        a = []
+        for x in args:
+            if x.get('kind') == 'CXXDefaultArgExpr': continue       # defaulted parameter of a library method: the stub is declared without it
+            sx = unit.strip_tmp(x)
+            while sx['kind'] in ('ImplicitCastExpr', 'CXXConstructExpr', 'MaterializeTemporaryExpr', 'CXXBindTemporaryExpr', 'CXXFunctionalCastExpr') and unit.kids(sx): sx = unit.strip_tmp(unit.kids(sx)[0])
+            if sx['kind'] == 'LambdaExpr':
+                # a callable handed to an opaque library object: the stub receives the addresses of what the lambda captures
+                # (its contract says what the invocations may do to them); the invocations themselves are not part of the unit
+                lam, largs, rt = unit.lift_lambda(sx)
+                unit.dropped.append('invocations of %s by %s (in %s)' % (lam, fn, unit.cur)); a += largs
+            else:
+                a.append(unit.addr_of(x) if unit.is_record_type(x) else unit.expr(x))
+        return '%s(%s)' % (fn, ', '.join([recv] + a))
+    def operator_call(self, unit, n, rd, args):
+        # iterators of opaque containers are scalars (opaque positions): only (in)equality is supported
+        if rd.get('name') in ('operator!=', 'operator==') and len(args) == 2 and all(self._scalar_it(unit, a) for a in args):
+            return '(%s %s %s)' % (unit.expr(args[0]), rd['name'][-2:], unit.expr(args[1]))
+        return None
+    def _scalar_it(self, unit, node):
+        t = node.get('type', {})
+        return any(qt and re.search(r'_Rb_tree(_const)?_iterator<', qt) for qt in (t.get('desugaredQualType'), t.get('qualType')))
+
+
+class StdArray(Plugin):
+    """std::array<T, N>: struct v_arr_<T>_<N> { T e[N]; }; at() bounds-checked (ghost exception), operator[] asserted, size() == N"""
+    def __init__(self): self.decls = {}
+    def parse(self, name):
+        m = re.match(r'^std::array<(.*),\s*(\d+)(?:UL|ul)?>$', canon_type(name))
+        return (m.group(1).strip(), int(m.group(2))) if m else None
+    def type_for(self, name, unit):
+        if name.endswith('::value_type') or name.endswith('::reference') or name.endswith('::const_reference'):
+            pr = self.parse(name.rsplit('::', 1)[0])
+            if pr: return unit.ctype(pr[0])
+        pr = self.parse(name)
+        if not pr: return None
+        ect = unit.ctype(pr[0]); cn = 'v_arr_%s_%d' % (re.sub(r'\W', '_', ect.replace('struct ', '').replace('*', 'p').replace(' ', '')), pr[1])
+        if cn not in self.decls:
+            self.decls[cn] = (ect, pr[1])
+            unit.emitted_types['~' + cn] = ('struct %s { %s e[%d]; };\nstatic %s %s_thrown;\n'
+                'static inline %s *%s_at(struct %s *a, size_t i) { if (i >= %d) { __exc = 3; return &%s_thrown; } return &a->e[i]; }\n'
+                'static inline %s *%s_index(struct %s *a, size_t i) { __CPROVER_assert(i < %d, "std::array::operator[] index in range"); return &a->e[i]; }') % (
+                cn, ect, pr[1], ect, cn, ect, cn, cn, pr[1], cn, ect, cn, cn, pr[1])
+            unit.type_order.append('~' + cn)
+        return 'struct ' + cn
+    def is_model_type(self, ct): return ct.replace('const ', '').strip().startswith('struct v_arr_')
+    def _cn(self, unit, node):
+        t = node.get('type', {})
+        for qt in (t.get('desugaredQualType'), t.get('qualType')):
+            if qt:
+                r = self.type_for(re.sub(r'\s*[\*&]$', '', qt.replace('const ', '').strip()), unit)
+                if r: return r[len('struct '):]
+        return None
+    def field_init(self, unit, f, ct, target, e):
+        cn = ct.replace('const ', '').strip()[len('struct '):]; ect, n = self.decls[cn]
+        if unit.models.is_model_type(ect):
+            out = []
+            for i in range(n): out += unit.models.field_init(unit, f, ect, '%s.e[%d]' % (target, i), None)
+            return out
+        return []
+    def field_dtor(self, unit, f, ct, target): return []
+    def member_call(self, unit, n, me, base, args):
+        cn = self._cn(unit, base)
+        if cn is None: return None
+        b = unit.expr(base); recv = b if me.get('isArrow') else unit.addr_text(b)
+        if me['name'] == 'size': return '((size_t)%d)' % self.decls[cn][1]
+        if me['name'] == 'at':
+            unit.stmt_may_throw = True
+            return '(*%s_at(%s, %s))' % (cn, recv, unit.expr(args[0]))
+        raise Unsupported('std::array::%s (in %s)' % (me['name'], unit.cur))
+    def operator_call(self, unit, n, rd, args):
+        if rd.get('name') == 'operator[]' and args:
+            cn = self._cn(unit, args[0])
+            if cn: return '(*%s_index(%s, %s))' % (cn, unit.addr_of(args[0]), unit.expr(args[1]))
+        return None
 
 
 class StringStreamSink(Plugin):
@@ -545,8 +671,15 @@ class Sync(Plugin):
                 unit.w(p + '%s *%s = %s; %s_lock(%s);' % (mt, tmp, m, fn, tmp))
                 unit.scopes[-1]['vars'].append('%s_unlock(%s);' % (fn, tmp))
             else:
-                unit.w(p + 'struct v_ulock %s; %s.m = %s; %s.owns = 0; v_ulock_lock(&%s);' % (name, name, m, name, name))
-                unit.scopes[-1]['vars'].append('v_ulock_release(&%s);' % name)
+                # the ghost lock object is declared at function scope (dfcc loses track of address-taken locals declared inside a
+                # loop body that is left by break, measured); it is (re)initialised where the C++ object is constructed
+                if hasattr(unit, 'hoisted') and unit.spec.get(('hoist_locks', unit.cur)):
+                    self.ul_no = getattr(self, 'ul_no', 0) + 1; cname = '%s__%d' % (name, self.ul_no)
+                    unit.hoisted.append('struct v_ulock %s;' % cname); unit.local_names[v['id']] = (cname, False)
+                else:
+                    cname = name; unit.w(p + 'struct v_ulock %s;' % cname)
+                unit.w(p + '%s.m = %s; %s.owns = 0; v_ulock_lock(&%s);' % (cname, m, cname, cname))
+                unit.scopes[-1]['vars'].append('v_ulock_release(&%s);' % cname)
             return
         if ct == 'struct v_thread':
             unit.w(p + 'struct v_thread %s;' % name)
@@ -554,6 +687,11 @@ class Sync(Plugin):
             else: unit.w(p + 'v_thread_init(&%s);' % name)
             return
         raise Unsupported('local %s (in %s)' % (ct, unit.cur))
+    def new_expr(self, unit, n, elem):
+        if elem.strip() == 'struct v_thread':
+            unit.dropped.append('thread entry expression in %s (the new thread runs outside this function)' % unit.cur)
+            return 'v_thread_new()'
+        return None
     def field_init(self, unit, f, ct, target, e):
         ct = ct.replace('const ', '').strip()
         if ct in ('struct v_mutex', 'struct v_rmutex', 'struct v_thread'): return ['%s_init(&%s);' % (ct[len('struct '):], target)]
@@ -586,6 +724,26 @@ class Sync(Plugin):
             if name == 'wait' and len(args) == 1:
                 unit.count_call('v_cv_wait'); return 'v_cv_wait(%s, %s)' % (recv, unit.addr_of(args[0]))
             if name in ('wait', 'wait_for') and len(args) == (2 if name == 'wait' else 3):
+                pa = unit.strip_tmp(args[-1])
+                while pa['kind'] in ('ImplicitCastExpr', 'CXXConstructExpr', 'MaterializeTemporaryExpr', 'CXXBindTemporaryExpr', 'CXXFunctionalCastExpr') and unit.kids(pa): pa = unit.strip_tmp(unit.kids(pa)[0])
+                if pa['kind'] == 'CallExpr' and (unit.callee_decl(unit.kids(pa)[0]).get('referencedDecl') or {}).get('name') == 'bind':
+                    # std::bind(&Class::method, this): the predicate is that method called on this object
+                    bk = unit.kids(pa)[1:]
+                    mref = unit.strip(bk[0])
+                    while mref['kind'] in ('UnaryOperator', 'ImplicitCastExpr', 'ParenExpr'): mref = unit.kids(mref)[0]
+                    if len(bk) != 2 or unit.strip(bk[1])['kind'] != 'CXXThisExpr' or mref['kind'] != 'DeclRefExpr': raise Unsupported('bind expression as wait predicate (in %s)' % unit.cur)
+                    cidp = unit.canon.get(mref['referencedDecl']['id']); unit.need_func(cidp)
+                    lam = unit.func_cname(cidp); largs = ['self']; rt = '_Bool'
+                    unit.emitted_protos.setdefault(lam, None)
+                    self.bind_no = getattr(self, 'bind_no', 0); h = '%s__cvwait_bind%d' % (unit.cur, self.bind_no); self.bind_no += 1
+                    proto = 'static _Bool %s(struct v_cv *cv, struct v_ulock *lk, %s *self)' % (h, unit.cur_self_t)
+                    unit.count_call('v_cv_wait')
+                    body = '  while (!%s(self))\n%s  {\n    v_cv_wait(cv, lk);\n  }\n  return 1;\n' % (lam, self._loopc(unit, h))
+                    g = unit.spec.get(('ghost', h, 'entry'))
+                    if g:
+                        unit.used_keys.add(('ghost', h, 'entry')); body = '  ' + g + '\n' + body
+                    unit.add_helper(h, proto, proto + '\n{\n' + body + '}\n')
+                    return '%s(%s)' % (h, ', '.join([recv, unit.addr_of(args[0]), 'self']))
                 lam, largs, rt = unit.lift_lambda(args[-1])
                 if name == 'wait_for': unit.expr(args[1])     # duration evaluated for its checks; its value only bounds the wait
                 proto_l = unit.emitted_protos[lam]
